@@ -174,6 +174,14 @@ NOT_APPLICABLE = {
  "C07": "accuracy tolerance (2.5 % / 15 %) of a floating-point FFT/peak-picking/regression pipeline: no contract over exact reals can state or discharge it (DESIGN.md section 8); its scale-invariance clause is covered under C08",
 }
 checks = []
+_HANDOVER = (" The algorithm classes' run() methods are under hand-over contracts as well (contracts/handover.py): the kernels receive data.T, the listed "
+             "reference rows in the listed order, block rows, method, orders and dt, and their outputs are chained and stored under their own names; "
+             "build_hank's contracts (including the frame clause that the records handed in are left unchanged) are part of this check.")
+for _p in ("C01", "C03", "C12"):
+    CLAIMS[_p]["text"] += _HANDOVER
+CLAIMS["C05"]["text"] += (" pLSCF.run / pLSCF_MS.run are under hand-over contracts (contracts/handover.py): the estimator's spectrum, dt, ordmax and the basis-function "
+                          "sign that belongs to the estimator (library convention, from the source) reach plscf.pLSCF, the fitted model reaches pLSCF_poles and is stored.")
+
 for i in ids:
     if i in CLAIMS:
         c = CLAIMS[i]
